@@ -350,6 +350,7 @@ Fixpoint axis_lens (v : var) (ds : list name) : res (list nat) :=
   | [] => Ok []
   | d :: t => match axis_len v d with Some n => do r <- axis_lens v t; Ok (n :: r) | None => Raise end
   end.
+(* without repeated names the loop of reorderDimensions sorts the axes into vno, names and axes together *)
 Definition reorder_var (neworder : list name) (v : var) : res var :=
   let vno := filter (fun d => memb d (vdims v)) neworder in
   match vno with
@@ -359,7 +360,9 @@ Definition reorder_var (neworder : list name) (v : var) : res var :=
          else Raise                      (* assert (varorder == varneworder) *)
   end.
 Definition impl_reorder (f : file) (neworder : list name) : res file :=
-  if negb (nodupb neworder) then Raise else      (* duplicates in neworder: not modelled *)
+  (* fixes/C01-reorder-repeated-name.patch: a repeated name in neworder is refused with ValueError before anything is copied
+     (np.rollaxis and the name list disagreed there) *)
+  if negb (nodupb neworder) then Raise else
   do f0 <- impl_copy f;
   do vs <- mapM (fun kv => do v' <- reorder_var neworder (snd kv); Ok (fst kv, v')) (fvars f0);
   Ok (File (fdims f0) vs (fattrs f0) (fcoords f0)).
